@@ -54,6 +54,11 @@ func init() {
 		k := w.KeyByName(t.S)
 		return &Built{Msgs: []sdk.Msg{&erc20types.MsgConvertCoin{Coin: sdk.NewCoin(t.A.Str("denom"), t.A.SdkInt("amount")), Receiver: t.A.Str("receiver"), Sender: k.Bech()}}}, nil
 	})
+	RegisterTx("convert_erc20", func(w *World, t *Tx) (*Built, error) {
+		k := w.KeyByName(t.S)
+		tok := t.A.Str("token")
+		return &Built{Msgs: []sdk.Msg{&erc20types.MsgConvertERC20{ContractAddress: tok, Amount: t.A.SdkInt("amount"), Receiver: t.A.Str("receiver"), Sender: k.Hex().Hex()}}}, nil
+	})
 	RegisterTx("convert_denom", func(w *World, t *Tx) (*Built, error) {
 		k := w.KeyByName(t.S)
 		return &Built{Msgs: []sdk.Msg{&erc20types.MsgConvertDenom{Sender: k.Bech(), Receiver: t.A.Str("receiver"), Coin: sdk.NewCoin(t.A.Str("denom"), t.A.SdkInt("amount")), Target: t.A.Str("target")}}}, nil
@@ -216,6 +221,11 @@ func (e EvmEngine) Apply(r *Run, s *Step) *Outcome {
 			}
 			if t.K == "pcall" {
 				t = e.resolvePcall(r, t)
+			}
+			if t.K == "convert_erc20" && strings.HasPrefix(t.A.Str("token"), "$") {
+				a := copyArgs(t.A)
+				a["token"] = e.resolver(r, nil)(t.A.Str("token"))
+				t.A = a
 			}
 			txs = append(txs, t)
 		}
